@@ -347,6 +347,14 @@ def mk_cases(ctx):
         if rng.chance(1, 4):      # a later call overrides an earlier one
             cfg.append([cfg[0][0], rng.choice(limits)])
         cases.append({"kind": "mk", "cs": rng.choice(["gray", "ycc", "rgb", "cmyk", "ycck"]), "markers": ms, "cfg": cfg})
+    # a marker whose last payload byte lands exactly on a destination-buffer boundary (jpeg_mem_dest: 4096, then doubling;
+    # file header of a grayscale image = SOI + JFIF APP0 = 20 bytes, marker header 4 bytes)
+    for end in (4096, 8192, 16384, 32768, 65536):
+        for first in (0, 1):
+            pre = [[225, 50, rng.next(), "rand"]] if first else []
+            off = 20 + (54 if first else 0) + 4
+            cases.append({"kind": "mk", "cs": "gray", "markers": pre + [[rng.choice(codes), end - off, rng.next(), "rand"], [254, 7, rng.next(), "rand"]],
+                          "cfg": [[c_, 65535] for c_ in codes]})
     # the writer's length limit
     for ln in (65533, 65534, 65535, 70000):
         cases.append({"kind": "mk", "cs": "gray", "markers": [[rng.choice(codes), ln, rng.next(), "rand"]], "cfg": [[254, 65535]]})
@@ -450,6 +458,11 @@ def run_mk(ctx, R, cases):
                 dl = min(len(d), L)
                 exp.append(" m %d %d %d %s ;" % (code, len(d), dl, fnv(d[:dl])))
         meta.append((ci, "rd", "".join(exp)))
+        # trace / warning messages of the COM/APPn routines (JFIF version, thumbnail consistency, JFXX codes, Adobe)
+        if sum(len(d) for _, d in head) < 3000:
+            hl.append("rdt %s %s" % (cfgs, jpg.hex()))
+            ml.append("trace %s %s" % (cfgs, ",".join("%d:%s" % (code, d.hex()) for code, d in head)))
+            meta.append((ci, "trace", nlib))
         # the same header through a suspending source: every split position when the header is short, else every
         # position around each segment start / length word / save limit, plus random partitions
         spec = susp_spec(SplitMix64(c["markers"][0][2] ^ 0x5a5a), segs, lim)
@@ -476,6 +489,13 @@ def run_mk(ctx, R, cases):
             R.corr("marker-write", "marker bytes", m, exp.hex() if exp else "-", c)
         elif what == "rds":
             judge_rds(ctx, R, c, h, m, "marker")
+        elif what == "trace":
+            lib = h.split()[1:1 + max(exp, 0)]
+            if any(x.startswith(("TrThumb", "TrBadThumbSize", "WarnJfifMajor")) for x in lib if c["cs"] in ("gray", "ycc")):
+                ctx.violation("the JFIF marker written by the library is reported with a thumbnail / inconsistent size / version warning: %s" % lib,
+                              {"case": c}, signature="jfif-own-marker-trace")
+            R.corr("marker-trace", "APPn/COM messages", m, h, c)
+            ctx.count("mk-trace", 1, ("trace", h[:200]))
         else:
             failed = False
             parts = h.split(" |")
@@ -1029,6 +1049,215 @@ def run_xh(ctx, R, cases):
         R.corr("copy-history", "option %d after [%s]" % (eopt, hdesc), m, got, cases[ci], failed)
 
 
+# ------------------------------------- all marker sequences: header and between scans (tables redefined)
+NATORDER = [0, 1, 8, 16, 9, 2, 3, 10, 17, 24, 32, 25, 18, 11, 4, 5, 12, 19, 26, 33, 40, 48, 41, 34, 27, 20, 13, 6, 7, 14, 21, 28,
+            35, 42, 49, 56, 57, 50, 43, 36, 29, 22, 15, 23, 30, 37, 44, 51, 58, 59, 52, 45, 38, 31, 39, 46, 53, 60, 61, 54, 47, 55, 62, 63]
+
+
+def split_file(jpg):
+    """[('seg', code, data) | ('ecs', bytes)] for the whole file, or None"""
+    out, i, n = [], 2, len(jpg)
+    if jpg[:2] != b"\xff\xd8":
+        return None
+    while i < n:
+        if jpg[i] != 0xFF or i + 1 >= n:
+            return None
+        code = jpg[i + 1]
+        if code == 0xD9:
+            out.append(("seg", code, b""))
+            return out
+        if i + 4 > n:
+            return None
+        l = int.from_bytes(jpg[i + 2:i + 4], "big")
+        out.append(("seg", code, jpg[i + 4:i + 2 + l]))
+        i += 2 + l
+        if code == 0xDA:
+            j = i
+            while j + 1 < n and not (jpg[j] == 0xFF and jpg[j + 1] != 0 and not (0xD0 <= jpg[j + 1] <= 0xD7) and jpg[j + 1] != 0xFF):
+                j += 1
+            out.append(("ecs", jpg[i:j]))
+            i = j
+    return None
+
+
+def join_file(units):
+    b = b"\xff\xd8"
+    for u in units:
+        if u[0] == "ecs":
+            b += u[1]
+        elif u[1] == 0xD9:
+            b += b"\xff\xd9"
+        else:
+            b += seg_bytes(u[1], u[2])
+    return b
+
+
+def expected_views(units, cfg_all=True):
+    """independent 'last definition wins' reading of the marker sequence: one dict per SOS"""
+    ri, qt, dc, ac, nm, views = 0, [None] * 4, [None] * 4, [None] * 4, 0, []
+    for u in units:
+        if u[0] != "seg":
+            continue
+        code, d = u[1], u[2]
+        if is_appcom(code):
+            nm += 1
+        elif code == 0xDD:
+            ri = int.from_bytes(d[:2], "big")
+        elif code == 0xDB:
+            k = 0
+            while k < len(d):
+                prec, n = d[k] >> 4, d[k] & 15
+                w = 2 if prec else 1
+                zz = [int.from_bytes(d[k + 1 + w * i:k + 1 + w * (i + 1)], "big") for i in range(64)]
+                nat = [0] * 64
+                for i in range(64):
+                    nat[NATORDER[i]] = zz[i]
+                qt[n] = fnv(b"".join(v.to_bytes(2, "big") for v in nat))
+                k += 1 + 64 * w
+        elif code == 0xC4:
+            k = 0
+            while k < len(d):
+                idx = d[k]; bits = d[k + 1:k + 17]; cnt = sum(bits)
+                f = fnv(bits + d[k + 17:k + 17 + cnt])
+                if idx & 0x10:
+                    ac[idx - 16] = f
+                else:
+                    dc[idx] = f
+                k += 17 + cnt
+        elif code == 0xDA:
+            views.append("ri=%d qt=%s dc=%s ac=%s nm=%d" % (ri, ",".join(x or "-" for x in qt), ",".join(x or "-" for x in dc), ",".join(x or "-" for x in ac), nm))
+    return views
+
+
+def ms_cases(ctx):
+    rng = ctx.rng
+    cases = []
+    for i in range(ctx.n(36, 360)):
+        cs = rng.choice(["gray", "ycc", "ycc", "rgb", "cmyk", "ycck"])
+        mode = rng.choice(["b", "p", "p", "pR", "bR", "o", "a", "pa"])
+        nm = rng.range(0, 3)
+        cases.append({"kind": "ms", "cs": cs, "mode": mode, "W": rng.range(8, 48), "H": rng.range(8, 48), "prec": rng.choice([8, 8, 12]),
+                      "restart": rng.choice([0, 1, 2, 3, 7]), "markers": [[rng.choice([254, 225, 237]), rng.range(0, 40), rng.next(), "rand"] for _ in range(nm)],
+                      "edits": rng.range(0, 6), "eseed": rng.next()})
+    return cases
+
+
+def ms_edit(rng, units):
+    """insert well-formed extra markers (repeated / overriding) in the header and between scans"""
+    units = list(units)
+    sos = [i for i, u in enumerate(units) if u[0] == "seg" and u[1] == 0xDA]
+    dhts = [u for u in units if u[0] == "seg" and u[1] == 0xC4]
+    kind = rng.choice(["dqt8", "dqt16", "dqt2", "dri", "dri", "com", "jfif", "dht-dup", "dht-unused", "adobe", "dqt-after"])
+    # position: before some SOS (index 0 = in the header, others = between scans)
+    si = rng.choice(sos)
+    # never between an SOS header and its entropy-coded data
+    cand = [i for i in range(1, si + 1) if not (units[i - 1][0] == "seg" and units[i - 1][1] == 0xDA)]
+    pos = si if rng.chance(2, 3) or not cand else rng.choice(cand)
+    if kind in ("dqt8", "dqt16", "dqt2", "dqt-after"):
+        def tbl(n, p16):
+            vals = [rng.range(1, 65535 if p16 else 255) for _ in range(64)]
+            return bytes([(16 if p16 else 0) + n]) + b"".join(v.to_bytes(2 if p16 else 1, "big") for v in vals)
+        n = rng.range(0, 3)
+        if kind == "dqt2":
+            seg = tbl(n, False) + tbl(rng.range(0, 3), True) + tbl(n, False)       # the same slot twice in one marker
+        else:
+            seg = tbl(n, kind == "dqt16")
+        if pos <= next(i for i, u in enumerate(units) if u[0] == "seg" and 0xC0 <= u[1] <= 0xCF and u[1] not in (0xC4, 0xC8, 0xCC)) and kind == "dqt16":
+            pass
+        units.insert(pos, ("seg", 0xDB, seg))
+    elif kind == "dri":
+        units.insert(pos, ("seg", 0xDD, rng.choice([0, 1, 5, 255, 256, 65535]).to_bytes(2, "big")))
+    elif kind == "com":
+        units.insert(pos, ("seg", rng.choice([0xFE, 0xE1, 0xED]), rng.bytes(rng.range(0, 30))))
+    elif kind == "jfif":
+        units.insert(pos, ("seg", 0xE0, b"JFIF\0\x01" + bytes([rng.range(0, 2), rng.range(0, 2)]) + rng.range(1, 65535).to_bytes(2, "big") + rng.range(1, 65535).to_bytes(2, "big") + b"\0\0"))
+    elif kind == "adobe":
+        units.insert(pos, ("seg", 0xEE, b"Adobe\0\x64\0\0\0\0" + bytes([units and 1 or 0])))
+    elif kind == "dht-dup" and dhts:
+        units.insert(pos, rng.choice(dhts))
+    elif kind == "dht-unused" and dhts:
+        d = bytearray(rng.choice(dhts)[2])
+        d[0] = (d[0] & 0x10) | rng.choice([2, 3])                                 # same (valid) table into an unused slot
+        cnt = sum(d[1:17])
+        units.insert(pos, ("seg", 0xC4, bytes(d[:17 + cnt])))
+    return units
+
+
+def run_ms(ctx, R, cases):
+    lines = []
+    for c in cases:
+        ds = [(m[0], marker_data(m)) for m in c["markers"]]
+        samp = {1: "1x1", 3: "2x2,1x1,1x1", 4: "1x1,1x1,1x1,1x1"}[len(CSCOMPS[CSNUM[c["cs"]]])]
+        lines.append("jc %d %d %s %s %d %s 1 0 %d - d d 0 - %s" % (c["W"], c["H"], c["cs"], samp, c["prec"], c["mode"], c["restart"],
+                                                               ",".join("%d:%s" % (code, d.hex()) for code, d in ds) or "-"))
+    outs = R.harness(lines, lambda i: cases[i])
+    hl, meta = [], []
+    for ci, (c, o) in enumerate(zip(cases, outs)):
+        if not o.startswith("ok "):
+            ctx.count("ms-rejected", 1, None)
+            continue
+        units = split_file(bytes.fromhex(o[3:]))
+        if units is None:
+            ctx.violation("emitted file is not a well-formed marker / scan sequence", {"case": c}, signature="ms-unparsable")
+            continue
+        rng = SplitMix64(c["eseed"])
+        for _ in range(c["edits"]):
+            units = ms_edit(rng, units)
+        # an Adobe marker inserted by the edit must not make the colourspace guess fail: harmless for this stream
+        hl.append("rdall %s %s" % (ALLSAVE, join_file(units).hex())); meta.append((ci, units))
+    hres = R.harness(hl, lambda i: cases[meta[i][0]])
+    mres = R.model(hl)
+    for (ci, units), h, m in zip(meta, hres, mres):
+        c = cases[ci]
+        failed = False
+        if " || err" in h or not h.startswith("view"):
+            # a redefined table may make the entropy decoder give up: not a header question
+            ctx.count("ms-decode-error", 1, None)
+            continue
+        got = [v for v in h.split(" | ") if v.startswith("view ")]
+        exp = expected_views(units)
+        gv = [v.split(" ", 2)[2] for v in got]
+        # jinit_huff_decoder installs the standard tables into undefined DC/AC slots 0 and 1 after the header: those slots
+        # of the later views are not judged by this oracle (the model decides them)
+        def masked(v, e):
+            vf, ef = v.split(), e.split()
+            for k in (2, 3):
+                a, b = vf[k].split("=")[1].split(","), ef[k].split("=")[1].split(",")
+                for j in (0, 1):
+                    if b[j] == "-":
+                        a[j] = "-"
+                vf[k] = vf[k].split("=")[0] + "=" + ",".join(a)
+            return " ".join(vf)
+        gv = [gv[0]] + [masked(v, e) for v, e in zip(gv[1:], exp[1:])] + gv[max(1, len(exp)):] if gv and exp else gv
+        if gv != exp:
+            failed = True
+            k = next((i for i in range(min(len(gv), len(exp))) if gv[i] != exp[i]), min(len(gv), len(exp)))
+            ctx.violation("marker-reader state at SOS #%d is not what the marker sequence before it defines (last definition wins): got '%s' expected '%s'" % (
+                k + 1, gv[k][:200] if k < len(gv) else "<missing>", exp[k][:200] if k < len(exp) else "<none>"), {"case": c, "scan": k + 1}, signature="marker-sequence-state")
+        R.corr("marker-sequence", "views at every SOS", m, h, c, failed)
+        nsos = len(got)
+        ctx.count("ms-%s-%dscans" % ("edited" if c["edits"] else "plain", min(nsos, 10)), 1, ("ms", h[:300]))
+    # jpeg_write_marker / jpeg_write_m_header / jpeg_write_icc_profile at every point of the compressor's life
+    wl = ["wst %s %d %d" % (mode, what, ln) for mode in "sr" for what in (0, 1, 2) for ln in (0, 1, 65533, 65534)]
+    wres = R.harness(wl, lambda i: {"kind": "wst", "line": wl[i]})
+    ml, mm = [], []
+    for line, h in zip(wl, wres):
+        _, mode, what, ln = line.split()
+        for it in h.split():
+            name, gs, res = it.split(":")
+            gs = int(gs[3:])
+            ns = {"created": 0, "started": 0, "after1line": 1, "afterraw": 8, "finished": 16}[name]
+            ml.append("wst %d %d %s %s" % (gs, ns, what, ln)); mm.append((line, name, res))
+            allowed = ns == 0 and gs in (101, 102, 103)
+            want = "BUFFER_SIZE" if (what == "2" and ln == "0") else ("BAD_STATE" if not allowed else ("BAD_LENGTH" if int(ln) > 65533 and what != "2" else "ok"))
+            if res != want:
+                ctx.violation("marker-writing API at '%s' (global_state %d, next_scanline %d): %s, expected %s" % (name, gs, ns, res, want),
+                              {"case": {"kind": "wst"}, "line": line}, signature="marker-api-state:%s" % name)
+            ctx.count("wst-%s" % name, 1, ("wst", line, name, res))
+    for (line, name, res), m in zip(mm, R.model(ml)):
+        R.corr("marker-api-state", "%s %s" % (line, name), m, res, {"kind": "wst", "line": line})
+
+
 # ------------------------------------------------ copying: several transforms in ONE tj3Transform call
 def xm_cases(ctx):
     rng = ctx.rng
@@ -1147,13 +1376,13 @@ def run_probes(ctx, R):
 
 
 def run(ctx):
-    ctx.regen(["IccConst"])
+    ctx.regen(["IccConst", "StdHuff"])
     ctx.prove()
     drv = ctx.model_driver()
     flavours = ["simd"] if not ctx.thorough() else ["simd", "asan"]
     exes = {fl: ctx.cc("c16", ["c16.c"], fl, libs=("turbojpeg",)) for fl in flavours}
     R = Runner(ctx, exes, drv)
-    runners = {"icc": run_icc, "mk": run_mk, "hp": run_hp, "xf": run_xf, "xh": run_xh, "xm": run_xm}
+    runners = {"icc": run_icc, "mk": run_mk, "hp": run_hp, "xf": run_xf, "xh": run_xh, "xm": run_xm, "ms": run_ms}
     if ctx.replay:
         r = json.load(open(ctx.replay))
         c = r.get("case")
@@ -1180,6 +1409,7 @@ def run(ctx):
     run_xf(ctx, R, xf_cases(ctx))
     run_xh(ctx, R, xh_cases(ctx))
     run_xm(ctx, R, xm_cases(ctx))
+    run_ms(ctx, R, ms_cases(ctx))
     ctx.log("copy stream done")
     return finish(ctx, R)
 
